@@ -51,8 +51,8 @@ PROPS = {
 # the worker's part of C12 (specs/WorkManager/Worker.tla, WorkerProps.tla)
 WPROPS = ["WorkerOneResultPerJob", "WorkerSuccessMeansFinished", "WorkerResultNamesCause",
           "WorkerTimeoutAfterQuiet", "WorkerLeavesOnlyOnDisconnect", "WorkerNoSendForCanceledJob",
-          "WorkerStopReturns"]
-WCONF = {"quick": dict(MaxJobs=2, MaxMsgs=3), "thorough": dict(MaxJobs=3, MaxMsgs=4)}
+          "WorkerStopReturns", "WorkerTimeoutWhenQuiet"]
+WCONF = {"quick": dict(MaxJobs=2, MaxMsgs=3, MaxTicks=3), "thorough": dict(MaxJobs=3, MaxMsgs=4, MaxTicks=4)}
 WOFF = 10000000      # trace ids of the worker part
 
 CODE_VERSION = json.load(open(os.path.join(SPEC, "code_version.json")))
